@@ -187,8 +187,48 @@ def float_threshold_oracle(arr, t, kind):
 _explore0 = explore
 
 
+def infinity_stream(ctx):
+    """+inf is a number: arrays with infinite pixels (isolated ones, plateaus, next to finite ones and NaN), default and
+    explicit thresholds, no pruning parameters - every pixel strictly above min_value is assigned, nothing else is, and
+    prune() with inherited parameters changes nothing.  Oracle only (the integer model has no infinities)."""
+    from astrodendro import Dendrogram
+    rng = ctx.rng('c01-inf')
+    for it in range(80 if ctx.quick else 800):
+        n = rng.randint(3, 9)
+        vals = [rng.choice([0.5, 1.0, 2.0, 3.0, 3.5, np.inf, np.inf, np.nan]) for _ in range(n)]
+        if not any(np.isfinite(v) for v in vals):
+            vals[0] = 1.0
+        arr = np.array(vals)
+        if rng.random() < 0.3 and n % 2 == 0:
+            arr = arr.reshape(2, n // 2)
+        explicit = rng.random() < 0.5
+        mv = rng.choice([0.0, 1.0, 2.5])
+        try:
+            d = Dendrogram.compute(arr.copy(), **({'min_value': mv} if explicit else {}))
+            lab = d.index_map.ravel().tolist()
+            thr = float(d.params['min_value'])
+            flat = arr.ravel().tolist()
+            bad = [i for i, x in enumerate(flat) if ((x == x) and x > thr) != (lab[i] >= 0)]
+            before = (d.index_map.tolist(), len(d))
+            d.prune()
+            after = (d.index_map.tolist(), len(d))
+        except Exception as e:
+            ctx.oracle_failure({'stream': 'infinite pixels', 'data': repr(vals), 'shape': list(arr.shape)}, ['raised %r' % (e,)])
+            continue
+        ctx.count('infinite_pixel_cases')
+        ctx.case_done(None, ('inf', repr(vals), arr.shape, explicit, mv))
+        fails = []
+        if bad:
+            fails.append('pixels %s are labelled / unlabelled against the rule "a number strictly above min_value=%r" (labels %s)' % (bad, thr, lab))
+        if before != after:
+            fails.append('prune() with the inherited parameters changed the dendrogram (%d -> %d structures)' % (before[1], after[1]))
+        if fails:
+            ctx.oracle_failure({'stream': 'infinite pixels', 'data': repr(vals), 'shape': list(arr.shape), 'min_value': mv if explicit else 'default'}, fails)
+
+
 def explore(ctx):
     _explore0(ctx)
+    infinity_stream(ctx)
     rng = ctx.rng('floatthr')
     for arr, t, kind in float_threshold_cases(rng, ctx.quick) + int_threshold_cases(rng, ctx.quick) + bigint_threshold_cases(rng, ctx.quick):
         try:
